@@ -31,7 +31,7 @@ type builderCase struct {
 	name   string
 	expect abs.Payload
 	err    error
-	skip   bool // builder legitimately appended nothing (documented no-op inputs)
+	skip   bool   // builder legitimately appended nothing (documented no-op inputs)
 	viol   string // a post-condition of a (sub-)builder already failed inside applyBuilder
 }
 
@@ -455,6 +455,115 @@ func c19(c *core.Ctx) {
 		}
 	})
 	c.Family("builders", c.N(28000, 3000000), c19Builder)
+	// one container variable used for several messages in a row (what Reset() exists for), while the messages built
+	// earlier are still held (for retransmission): later building must leave them untouched
+	c.Family("reset-sessions", c.N(700, 200000), func(k *core.Case) {
+		type heldMsg struct {
+			msg  *message.IKEMessage
+			cp   message.IKEPayloadContainer // plain copy of the slice header
+			want []abs.Payload
+		}
+		var held []heldMsg
+		var cont message.IKEPayloadContainer
+		verify := func(when string) bool {
+			for hi, h := range held {
+				for which, l := range []message.IKEPayloadContainer{h.msg.Payloads, h.cp} {
+					got := bridge.ObservePayloads(l)
+					if len(got) != len(h.want) || !abs.EqualPayloads(h.want, got) {
+						k.Violate("history", "payloads-of-an-earlier-message-changed-after-Reset-and-rebuild", fmt.Sprintf("message %d (%s) %s", hi, []string{"NewMessage", "copy of the container"}[which], when), M{"expected": abs.Kinds(&abs.Msg{Payloads: h.want}), "got": abs.Kinds(&abs.Msg{Payloads: got})})
+						return false
+					}
+				}
+			}
+			return true
+		}
+		rounds := 2 + k.R.Intn(3)
+		pn := core.Try(func() {
+			for round := 0; round < rounds; round++ {
+				n := 1 + k.R.Intn(4)
+				for i := 0; i < n; i++ {
+					argSlices = nil
+					applyBuilder(core.NewRng(k.R.U64()), k.R.Intn(1000), &cont)
+					k.Eval(1)
+					if !verify(fmt.Sprintf("after builder call %d of round %d", i, round)) {
+						return
+					}
+				}
+				m := message.NewMessage(1, 2, message.IKE_AUTH, false, true, uint32(round), cont)
+				held = append(held, heldMsg{msg: m, cp: cont, want: bridge.ObservePayloads(cont)})
+				cont.Reset()
+				if len(cont) != 0 {
+					k.Violate("builder", "Reset-leaves-payloads", fmt.Sprintf("%d payloads after Reset", len(cont)), nil)
+					return
+				}
+				if !verify("after Reset") {
+					return
+				}
+			}
+			k.Count("reset_sessions", 1)
+			k.Distinct(fmt.Sprintf("reset-session|%d", rounds))
+		})
+		if pn != nil {
+			k.Violate("panic", "reset-session: "+pn.Sig(), "panic", panicData(pn, nil))
+		}
+	})
+	// the same for the four sub-containers
+	c.Family("reset-sub-containers", c.N(1500, 100000), func(k *core.Case) {
+		pn := core.Try(func() {
+			var pc message.ProposalContainer
+			var tc message.TransformContainer
+			var cc message.ConfigurationAttributeContainer
+			var sc message.IndividualTrafficSelectorContainer
+			type snap struct {
+				name string
+				get  func() string
+				want string
+			}
+			var snaps []snap
+			obsP := func(l message.ProposalContainer) string {
+				return bridge.ObservePayload(&message.SecurityAssociation{Proposals: l}).JSON()
+			}
+			obsT := func(l message.TransformContainer) string {
+				return bridge.ObservePayload(&message.SecurityAssociation{Proposals: message.ProposalContainer{&message.Proposal{EncryptionAlgorithm: l}}}).JSON()
+			}
+			obsC := func(l message.ConfigurationAttributeContainer) string {
+				return bridge.ObservePayload(&message.Configuration{ConfigurationAttribute: l}).JSON()
+			}
+			obsS := func(l message.IndividualTrafficSelectorContainer) string {
+				return bridge.ObservePayload(&message.TrafficSelectorInitiator{TrafficSelectors: l}).JSON()
+			}
+			for round := 0; round < 3; round++ {
+				for i, n := 0, 1+k.R.Intn(3); i < n; i++ {
+					pc.BuildProposal(k.R.Byte(), 3, k.R.Bytes(4))
+					tc.BuildTransform(uint8(1+k.R.Intn(5)), k.R.U16(), nil, nil, nil)
+					cc.BuildConfigurationAttribute(k.R.U16()&0x7fff, k.R.Bytes(k.R.Intn(6)))
+					sc.BuildIndividualTrafficSelector(7, 0, 0, 65535, k.R.Bytes(4), k.R.Bytes(4))
+					k.Eval(4)
+					for _, sn := range snaps {
+						if g := sn.get(); g != sn.want {
+							k.Violate("history", "elements-held-from-before-Reset-changed/"+sn.name, "building into a reset sub-container changed a list handed out before the Reset", M{"want": clipS(sn.want, 600), "got": clipS(g, 600)})
+							return
+						}
+					}
+				}
+				hp, ht, hc, hs := pc, tc, cc, sc
+				snaps = append(snaps, snap{"ProposalContainer", func() string { return obsP(hp) }, obsP(hp)}, snap{"TransformContainer", func() string { return obsT(ht) }, obsT(ht)},
+					snap{"ConfigurationAttributeContainer", func() string { return obsC(hc) }, obsC(hc)}, snap{"IndividualTrafficSelectorContainer", func() string { return obsS(hs) }, obsS(hs)})
+				pc.Reset()
+				tc.Reset()
+				cc.Reset()
+				sc.Reset()
+				if len(pc)+len(tc)+len(cc)+len(sc) != 0 {
+					k.Violate("builder", "sub-container-Reset-leaves-elements", "", nil)
+					return
+				}
+			}
+			k.Count("reset_sub_container_sessions", 1)
+		})
+		if pn != nil {
+			k.Violate("panic", "reset-sub: "+pn.Sig(), "panic", panicData(pn, nil))
+		}
+	})
 	c.Family("delete-aliasing-note", 1, func(k *core.Case) {
 		var cont message.IKEPayloadContainer
 		spis := []uint32{1, 2}
@@ -464,7 +573,7 @@ func c19(c *core.Ctx) {
 			k.Count("BuildDeletePayload_keeps_callers_slice(not judged)", 1)
 		}
 	})
-	req := []string{"error_at_build_BuildEAP5GNAS", "error_at_build_BuildNotify5G_QOS_INFO", "error_at_encode_BuildNotification", "error_at_encode_BuildEAP5GNAS"}
+	req := []string{"reset_sessions", "reset_sub_container_sessions", "error_at_build_BuildEAP5GNAS", "error_at_build_BuildNotify5G_QOS_INFO", "error_at_encode_BuildNotification", "error_at_encode_BuildEAP5GNAS"}
 	for _, b := range []string{"BuildNotification", "BuildCertificate", "BuildEncrypted", "BUildKeyExchange", "BuildIdentificationInitiator", "BuildIdentificationResponder", "BuildAuthentication", "BuildNonce",
 		"BuildConfiguration", "BuildTrafficSelector", "BuildSecurityAssociation", "BuildDeletePayload", "BuildEAP", "BuildEAPSuccess", "BuildEAPfailure", "BuildEapExpanded", "BuildEAP5GStart", "BuildEAP5GNAS",
 		"BuildNotify5G_QOS_INFO", "BuildNotifyNAS_IP4_ADDRESS", "BuildNotifyUP_IP4_ADDRESS", "BuildNotifyNAS_TCP_PORT"} {
